@@ -80,6 +80,8 @@ def judge_qty(o: Outcome, *, unit: Optional[UnitV] = None, tid: Optional[str] = 
     t = st.T(v.tid)
     quantized = bool(t.has_quantum) or bool(t.money)
     if quantized and v.fresh and d == 0:
+        if _multiple_by_invariant(o, v):
+            return None     # no rounding needed: an integer combination of operands that are multiples already
         return ("not rounded to quantum", f"amount {st.norm(v.amount.rf)!r} of a quantized type built without rounding")
     if quantized and v.fresh and d == 1:
         rf = st.norm(v.amount.rf)
@@ -90,6 +92,44 @@ def judge_qty(o: Outcome, *, unit: Optional[UnitV] = None, tid: Optional[str] = 
         if not ok:
             return ("not a multiple of the unit's quantum", f"amount {rf!r}, quantum {q!r}")
     return None
+
+
+def _unit_quantum(st: State, tid, unit: UnitV) -> RF:
+    t = st.T(tid)
+    if t.money:
+        return st.norm(RF.atom(("sf", st.ufind(unit.uid))))
+    return st.norm(RF.atom(("Qm", st.tfind(tid)))) * st.norm(RF.atom(("rho", st.tfind(tid)))) / mu_of(st, unit)
+
+
+def _multiple_by_invariant(o: Outcome, v: QtyV) -> bool:
+    """Class invariant of quantized types: every existing instance holds an integer multiple of its unit's quantum.
+    Under it (operand amounts a(x) = k_x * quantum(unit of x), k_x an integer) - is the result's amount an integer
+    multiple of the result unit's quantum?  (Negation, absolute value, sums of same-unit operands: yes.)"""
+    st = o.state
+    try:
+        q_res = _unit_quantum(st, v.tid, v.unit)
+        sub = {}
+        for a in list(getattr(o, "args", ()) or ()):
+            if isinstance(a, QtyV) and a.amount is not None and a.unit is not None:
+                t = st.T(a.tid)
+                if not (t.has_quantum or t.money):
+                    continue
+                ra = st.norm(a.amount.rf)
+                atoms = list(ra.atoms())
+                if len(atoms) == 1 and ra.equals(RF.atom(atoms[0])) and atoms[0][0] == "a":
+                    sub[atoms[0]] = RF.atom(("ki", "inv:" + str(atoms[0][1]))) * _unit_quantum(st, a.tid, a.unit)
+        if not sub:
+            return False
+        rf = st.norm(v.amount.rf)
+        # |x| of a multiple is a multiple (quanta are positive)
+        for at in list(rf.atoms()):
+            if at[0] == "fn" and at[1] == "abs":
+                arg = st.norm(st.rnd_args[at[2]]).subst(sub)
+                if st.integer_valued(st.norm(arg / q_res)):
+                    sub[at] = RF.atom(("ki", "invabs:" + str(at[2]))) * q_res
+        return st.integer_valued(st.norm(rf.subst(sub) / q_res))
+    except Exception:       # noqa: BLE001 - anything outside the polynomial domain: not provable
+        return False
 
 
 def judge_num(o: Outcome, value: RF) -> Optional[Tuple[str, str]]:
